@@ -201,7 +201,8 @@ example : (storeArgs (install wI cI .status namesI).1 5).map (·.node) = [bstr "
 
 **Runs.**  `PassX` = the kernel's answers of a pass (`PassIn`) together with the recorded `regexec` answers its device phase
 will consume; `runX w qs` the world after the passes `qs`, `feed w rx` the world with the answers handed over (what the
-driver does between passes).  (`Isolation.runPasses`, used by the end-to-end part of `Props/C02`, is the special case in
+driver does between passes) — the shared definitions of `Pm/RunX.lean`, also used by C02, C05, C06, C11 and C15.
+(`Isolation.runPasses`, used by the older statements of the end-to-end part of `Props/C02`, is the special case in
 which no pass brings an answer — there every `expect` after the first pass of the run fails; see `C03_run_defs`.)
 `AliveX w qs`: no pass ends in a modelled assertion; `runFinsX w qs g`: the completions (device, outcome) the run reports
 for client `g`.  `Inv` is the invariant of `C02_pending_is_queued`.
